@@ -90,7 +90,7 @@ pub fn altered_encrypted_part(pat: Pat, psk_mask: u16, k: usize, kind: u8) {
     let payload: [u8; 2] = kani::any();
     let mut m = [0u8; MSGBUF];
     let n = w.write_message(&payload, &mut m);
-    assert!(n.is_ok(), "C03 harness: genuine write");
+    assert!(n.is_ok(), "C02: an honest handshake write failed");
     let n = n.unwrap_or(0);
     let enc = match HsOps::<P>::first_encrypted_offset(pat, psk_mask, k) {
         Some(o) => o,
